@@ -352,7 +352,17 @@ Definition loc_in (soft : bool) (raw : list Z) (r : reader) (att : bool) : Z :=
 
 (* ------------------------------------------------------------------ script interpreter (correspondence) *)
 
+(* OPEN statements refused before any file is touched (Files.open_): bad mode letter, LEN=0, APPEND ACCESS WRITE,
+   FOR/ACCESS mismatch (Syntax error), file number 0, beyond max_files, beyond 255 *)
+Inductive refusal := RModeLetter | RRecLen | RAppendWrite | RAccess | RNumZero | RNumBig | RNumRange.
+Definition refusal_code (r : refusal) : Z :=
+  match r with
+  | RModeLetter => tf_err_BAD_FILE_MODE | RRecLen => 5 | RAppendWrite => 75 | RAccess => 2
+  | RNumZero => tf_err_BAD_FILE_NUMBER | RNumBig => tf_err_BAD_FILE_NUMBER | RNumRange => 5
+  end.
+
 Inductive op :=
+| OpRefused (why : refusal)
 | OpOpenO | OpOpenA | OpOpenI | OpClose
 | OpWrite (items : list item) | OpPrint (l : list Z) | OpPrintE (es : list pelem) | OpWidth (n : Z)
 | OpInput (kinds : list bool) | OpLineInput | OpInputStr (n : nat) | OpEof | OpLof | OpLoc
@@ -389,6 +399,7 @@ Fixpoint input_vars (kinds : list bool) (r : reader) (att : bool) : list Z * rea
    [6] not modelled (INPUT$ of more than one byte through the NewlineWrapper: chunk-dependent, see K24b) *)
 Definition step (soft : bool) (o : op) (s : fstate) : list Z * fstate :=
   match o, hnd s with
+  | OpRefused why, _ => ([1; refusal_code why], s)
   | OpOpenO, HClosed => ([0], mkF (Some []) (HOut (open_w open_output)))
   | OpOpenA, HClosed =>
       let old := match disk s with Some d => d | None => [] end in
